@@ -11,7 +11,7 @@
 import ast
 import re
 
-from sa.interp import Interp, Scenario, Sym, Const, Bytes, render, merge_consts
+from sa.interp import Interp, Scenario, Sym, Const, Bytes, Obj, render, merge_consts
 from sa.loader import AnalysisError, dotted
 from sa.condtab import split_filter, conj, table, atoms, same, skeleton
 
@@ -123,35 +123,58 @@ def render_item(it):
 def exportable(rep, prog):
     f = prog.method('pgpy.pgp', 'PGPSignature', 'exportable')
     rep.saw(fn=f)
-    for present in (True, False):
-        sc = Scenario(inline=noinline, axioms={"('ExportableCertification' in self._signature.subpackets)": present})
-        for s in Interp(prog, sc).run(f):
-            r = render(s.ret)
-            if present:
-                rep.check(r == "bool(next(iter(self._signature.subpackets['ExportableCertification'])))", 'C14.2', 'PGPSignature.exportable', r,
+    me = f.params[0]
+    SP = '%s._signature.subpackets' % me
+    L = "%s['ExportableCertification']" % SP
+    present_atom = "'ExportableCertification' in %s" % SP
+    flag = set()
+    for first in ('next(iter(%s))' % L, '%s[0]' % L):
+        flag |= {'bool(%s)' % first, '%s.bflag' % first, 'bool(%s.bflag)' % first, '%s.__bool__()' % first}
+    seen = {True: 0, False: 0}
+    for s in Interp(prog, Scenario(inline=noinline)).run(f):
+        r = render(s.ret) if s.ret is not None else 'raises %s' % s.raised
+        present = atom_value(s.facts, present_atom)
+        other = sorted(atoms(path_cond(s.facts)) - {present_atom})
+        for case in ((True, False) if present is None else (present,)):
+            seen[case] += 1
+            if case:
+                rep.check(r in flag and not other, 'C14.2', 'PGPSignature.exportable', '%s%s' % (r, ' under %s' % other if other else ''),
                           'with the subpacket present the flag decides', where=f.where)
             else:
-                rep.check(r == 'True', 'C14.2', 'PGPSignature.exportable', 'default %s' % r, 'a signature without the subpacket is exportable', where=f.where,
-                          expected='True', found=r)
+                rep.check(r == 'True' and not other, 'C14.2', 'PGPSignature.exportable', 'default %s%s' % (r, ' under %s' % other if other else ''),
+                          'a signature without the subpacket is exportable', where=f.where, expected='True', found=r)
+    if not (seen[True] and seen[False]):
+        raise AnalysisError('PGPSignature.exportable has no returning path')
     B = prog.cls('pgpy.packet.subpackets.signature', 'Boolean')
     p = B.props.get('bflag')
     if p is None:
         raise AnalysisError('Boolean.bflag vanished')
     sb = p.setters.get('bytearray')
+    if sb is None or 'bool' not in p.setters:
+        raise AnalysisError('Boolean.bflag setters vanished')
+    backing = None
+    for s in Interp(prog, Scenario(inline=noinline)).run(p.getter):
+        r = render(s.ret)
+        m = re.match(r'^%s\.(\w+)$' % re.escape(p.getter.params[0]), r)
+        backing = m.group(1) if m else None
+        rep.check(m is not None and m.group(1) != 'bflag', 'C14.2', 'Boolean.bflag', r, 'the flag is read from the backing attribute', where=p.getter.where)
+    me, val = sb.params[0], sb.params[1]
+    decoded = ('bool(%s.bytes_to_int(%s))' % (me, val), '(%s.bytes_to_int(%s) != 0)' % (me, val))
     for s in Interp(prog, Scenario(inline=noinline, forward_stores=False)).run(sb):
         st = {pth: v for pth, v, l, _ in s.stores}
-        ok = st.get('self.bflag') == 'bool(self.bytes_to_int(val))' or st.get('self._bool') == 'bool(self.bytes_to_int(val))'
+        ok = st.get('%s.bflag' % me) in decoded or (backing is not None and st.get('%s.%s' % (me, backing)) in decoded)
         rep.check(ok, 'C14.2', 'Boolean.bflag_bytearray', 'stores %s' % st,
                   'the parsed flag octet must reach the attribute the flag is read from; otherwise an explicit exportable=true reads back as false, '
                   'the certification fails verification and is dropped on the next export', where=sb.where, expected='self.bflag = bool(...)', found=st)
-    for s in Interp(prog, Scenario(inline=noinline)).run(p.setters['bool']):
+    bs = p.setters['bool']
+    for s in Interp(prog, Scenario(inline=noinline)).run(bs):
         st = {pth: v for pth, v, l, _ in s.stores}
-        rep.check(st == {'self._bool': 'val'}, 'C14.2', 'Boolean.bflag_bool', '%s' % st, 'the boolean setter stores the backing attribute', where=sb.where)
-    for s in Interp(prog, Scenario(inline=noinline)).run(p.getter):
-        rep.check(render(s.ret) == 'self._bool', 'C14.2', 'Boolean.bflag', render(s.ret), 'the flag is read from the backing attribute', where=p.getter.where)
+        rep.check(backing is not None and st == {'%s.%s' % (bs.params[0], backing): bs.params[1]}, 'C14.2', 'Boolean.bflag_bool', '%s' % st,
+                  'the boolean setter stores the backing attribute', where=sb.where)
     bb = B.methods['__bool__']
     for s in Interp(prog, Scenario(inline=noinline)).run(bb):
-        rep.check(render(s.ret) == 'self.bflag', 'C14.2', 'Boolean.__bool__', render(s.ret), 'truthiness of the subpacket is its flag', where=bb.where)
+        rep.check(render(s.ret) in ('%s.bflag' % bb.params[0], 'bool(%s.bflag)' % bb.params[0]) or (backing is not None and render(s.ret) == '%s.%s' % (bb.params[0], backing)),
+                  'C14.2', 'Boolean.__bool__', render(s.ret), 'truthiness of the subpacket is its flag', where=bb.where)
     E = prog.cls('pgpy.packet.subpackets.signature', 'ExportableCertification')
     rep.check(B in E.mro() and ast.literal_eval(E.attrs['__typeid__']) == 0x04, 'C14.2', 'ExportableCertification', 'Boolean, type 4',
               'exportable certification is boolean subpacket type 4 (RFC 4880 5.2.3.11)', where=E.where)
@@ -402,49 +425,62 @@ def grouper(rep, prog, f, keytext):
               '(the key is unique per head packet and is kept for the signatures that follow)', where=where)
 
 
-def _copied_collections(fn):
-    """Collections of `self` whose elements are copied into the result: `for v in self.X[.items()|.values()]: <res> |= copy.copy(v)`
-    (the loop variable may be any name; a tuple target counts when one of its names is copied).  Returns {X: loop node}."""
+def _copy_loops(recs, me, root):
+    """{attribute of the original: (elements copied into `root` on every iteration?, skeleton of the condition under which an
+    element is left out, description)} for the summarised loops over `me.<attr>[.items()|.values()]`."""
     out = {}
-    selfname = fn.params[0]
-    for n in ast.walk(fn.node):
-        if not isinstance(n, ast.For):
+    for r in recs:
+        m = re.match(r'^%s\.(\w+)(\.items\(\)|\.values\(\))?$' % re.escape(me), r.coll)
+        if m is None:
             continue
-        it = n.iter
-        if isinstance(it, ast.Call) and isinstance(it.func, ast.Attribute) and it.func.attr in ('items', 'values') and not it.args:
-            it = it.func.value
-        if not (isinstance(it, ast.Attribute) and isinstance(it.value, ast.Name) and it.value.id == selfname):
+        elem = _second(r.var) if m.group(2) == '.items()' else r.var if m.group(2) or not r.var.startswith('(') else None
+        if elem is None:
             continue
-        names = {x.id for x in ast.walk(n.target) if isinstance(x, ast.Name)}
-        for st in ast.walk(n):
-            if isinstance(st, ast.AugAssign) and isinstance(st.op, ast.BitOr) and isinstance(st.value, ast.Call) and \
-                    dotted(st.value.func) == 'copy.copy' and st.value.args and isinstance(st.value.args[0], ast.Name) and st.value.args[0].id in names:
-                out[it.attr] = n
+        want = 'copy.copy(%s)' % elem
+        copying = [p for p in r.paths if any(_root(t) == root and v == want for t, v in _attach_events(p[2]))]
+        others = [p for p in r.paths if p not in copying]
+        clean = all(len(_attach_events(p[2])) == 1 and p[0] in ('normal', 'continue') for p in copying) and \
+            all(not _effects(p[2]) and p[0] in ('normal', 'continue') for p in others)
+        left_out = ('or', [('not', conj(r.conds)), any_of(path_cond(p[1]) for p in others)])
+        desc = '%s%s' % (r.conds or '', [[x[0] if x[1] else 'not ' + x[0] for x in p[1]] for p in others] or '')
+        if copying:
+            out[m.group(1)] = (clean, left_out, desc, elem)
     return out
+
+
+def _fresh_copy_root(s, clsname):
+    """Text of the object a __copy__ path returns (the start of its `|=` chain) when that is a new object of clsname / of the
+    base-class copy; None otherwise."""
+    if s.ret is None or s.raised is not None:
+        return None
+    return _root(render(s.ret))
 
 
 def copies(rep, prog):
     K = prog.cls('pgpy.pgp', 'PGPKey')
     f = K.methods['__copy__']
     rep.saw(fn=f)
-    sup = [c for c in ast.walk(f.node) if isinstance(c, ast.Call) and isinstance(c.func, ast.Attribute) and c.func.attr == '__copy__' and
-           isinstance(c.func.value, ast.Call) and dotted(c.func.value.func) == 'super']
-    rep.check(len(sup) == 1, 'C14.4', 'PGPKey.__copy__', 'armor headers via Armorable.__copy__', 'a copy keeps the armor headers (built through the base class copy)',
-              where=f.where)
-    keyst = [n for n in ast.walk(f.node) if isinstance(n, ast.Assign) and isinstance(n.targets[0], ast.Attribute) and n.targets[0].attr == '_key']
-    rep.check(len(keyst) == 1 and ast.unparse(keyst[0].value) == 'copy.copy(self._key)', 'C14.4', 'PGPKey.__copy__',
-              'key packet: %s' % [ast.unparse(k) for k in keyst], 'a copy has its own copy of the key packet', where=f.where, expected='<copy>._key = copy.copy(self._key)')
-    cols = _copied_collections(f)
-    for attr, what in (('_uids', 'every user id and attribute'), ('_children', 'every subkey'), ('_signatures', 'every signature')):
-        rep.check(attr in cols, 'C14.4', 'PGPKey.__copy__', '%s copied: %s' % (attr, attr in cols), 'a copy carries %s' % what, where=f.where,
-                  expected='for x in self.%s: copy |= copy.copy(x)' % attr, found=sorted(cols))
-    if '_signatures' in cols:
-        # only embedded signatures may be skipped (they are re-derived from their binding signature when it is attached)
-        skips = [n for n in ast.walk(cols['_signatures']) if isinstance(n, ast.If) and any(isinstance(x, ast.Continue) for x in n.body)]
-        v = {x.id for x in ast.walk(cols['_signatures'].target) if isinstance(x, ast.Name)}
-        ok = all(ast.unparse(n.test) in ('%s.embedded' % name for name in v) for n in skips)
-        rep.check(ok, 'C14.4', 'PGPKey.__copy__', 'skipped signatures: %s' % [ast.unparse(n.test) for n in skips],
-                  'only embedded cross-signatures may be left out of a copy', where=f.where)
+    me = f.params[0]
+    outs, recs = observe(prog, f)
+    for s in outs:
+        root = _fresh_copy_root(s, 'PGPKey')
+        base_copy = [c for c in s.calls if c[0] in ('super:Armorable.__copy__', 'Armorable.__copy__')]
+        rep.check(len(base_copy) == 1 and root is not None and '__copy__(' in root, 'C14.4', 'PGPKey.__copy__', 'armor headers via Armorable.__copy__ (%s)' % root,
+                  'a copy keeps the armor headers (built through the base class copy)', where=f.where)
+        st = {p: v for p, v, l, _ in s.stores}
+        rep.check(st.get('%s._key' % root) == 'copy.copy(%s._key)' % me, 'C14.4', 'PGPKey.__copy__',
+                  'key packet: %s' % {k: v for k, v in st.items() if k.endswith('._key')}, 'a copy has its own copy of the key packet', where=f.where,
+                  expected='<copy>._key = copy.copy(self._key)')
+        cols = _copy_loops(recs, me, root)
+        for attr, what in (('_uids', 'every user id and attribute'), ('_children', 'every subkey'), ('_signatures', 'every signature')):
+            rep.check(attr in cols and cols[attr][0], 'C14.4', 'PGPKey.__copy__', '%s copied: %s' % (attr, attr in cols), 'a copy carries %s' % what, where=f.where,
+                      expected='for x in self.%s: copy |= copy.copy(x)' % attr, found=sorted(cols))
+            if attr in cols:
+                clean, left_out, desc, elem = cols[attr]
+                # only embedded signatures may be skipped (they are re-derived from their binding signature when it is attached)
+                ok = same(left_out, ('const', False)) or (attr == '_signatures' and same(left_out, ('atom', '%s.embedded' % elem)))
+                rep.check(ok, 'C14.4', 'PGPKey.__copy__', 'left out of %s: %s' % (attr, desc or 'nothing'),
+                          'only embedded cross-signatures may be left out of a copy', where=f.where)
     A = prog.cls('pgpy.types', 'Armorable')
     ac = A.methods['__copy__']
     outs = Interp(prog, Scenario(inline=noinline)).run(ac)
@@ -452,28 +488,41 @@ def copies(rep, prog):
     for s_ in outs:
         obj = render(s_.ret)
         st = {p: v for p, v, l, _ in s_.stores}
-        ok = st.get('%s.ascii_headers' % obj) == 'self.ascii_headers.copy()' and any(c[0] == 'self.__class__' for c in s_.calls)
+        ok = st.get('%s.ascii_headers' % obj) in ('%s.ascii_headers.copy()' % ac.params[0], 'copy.copy(%s.ascii_headers)' % ac.params[0]) and \
+            any(c[0] in ('%s.__class__' % ac.params[0], 'type(%s)' % ac.params[0]) for c in s_.calls)
     rep.check(ok, 'C14.4', 'Armorable.__copy__', 'headers copied into a new object of the same class', 'armor headers are copied', where=ac.where)
     U = prog.cls('pgpy.pgp', 'PGPUID')
     uf = U.methods['__copy__']
-    cols = _copied_collections(uf)
-    pk = [n for n in ast.walk(uf.node) if isinstance(n, ast.AugAssign) and isinstance(n.op, ast.BitOr) and ast.unparse(n.value) == 'copy.copy(self._uid)']
-    rep.check('_signatures' in cols and len(pk) == 1, 'C14.4', 'PGPUID.__copy__', 'packet copied %d, signatures copied %s' % (len(pk), '_signatures' in cols),
-              'a copied identity carries its packet and all its signatures', where=uf.where)
+    outs, recs = observe(prog, uf)
+    for s in outs:
+        root = _fresh_copy_root(s, 'PGPUID')
+        # a locally constructed object renders as the local it was first bound to; parameters render as themselves
+        fresh = re.match(r'^\w+$', root or '') is not None and root not in uf.params and sum(1 for c in s.calls if c[0] == U.name and not c[1]) == 1
+        pk = [e for e in _attach_events(s.events) if _root(e[0]) == root and e[1] == 'copy.copy(%s._uid)' % uf.params[0]]
+        cols = _copy_loops(recs, uf.params[0], root)
+        sigs = '_signatures' in cols and cols['_signatures'][0] and same(cols['_signatures'][1], ('const', False))
+        rep.check(fresh and sigs and len(pk) == 1, 'C14.4', 'PGPUID.__copy__', 'new identity %s, packet copied %d, signatures copied %s' % (fresh, len(pk), sigs),
+                  'a copied identity carries its packet and all its signatures', where=uf.where)
     S = prog.cls('pgpy.pgp', 'PGPSignature')
     sf = S.methods['__copy__']
-    sup = [c for c in ast.walk(sf.node) if isinstance(c, ast.Call) and isinstance(c.func, ast.Attribute) and c.func.attr == '__copy__' and
-           isinstance(c.func.value, ast.Call) and dotted(c.func.value.func) == 'super']
-    pk = [n for n in ast.walk(sf.node) if isinstance(n, (ast.AugAssign, ast.Assign)) and ast.unparse(n.value) == 'copy.copy(self._signature)']
-    rep.check(len(sup) == 1 and len(pk) == 1, 'C14.4', 'PGPSignature.__copy__', 'headers via base copy %d, packet copied %d' % (len(sup), len(pk)),
-              'a copied signature carries its armor headers and a copy of its packet', where=sf.where)
+    for s in Interp(prog, Scenario(inline=noinline)).run(sf):
+        root = _fresh_copy_root(s, 'PGPSignature')
+        sup = [c for c in s.calls if c[0] in ('super:Armorable.__copy__', 'Armorable.__copy__')]
+        want = 'copy.copy(%s._signature)' % sf.params[0]
+        pk = [e for e in _attach_events(s.events) if _root(e[0]) == root and e[1] == want] + \
+            [x for x in s.stores if x[0] == '%s._signature' % root and x[1] == want]
+        rep.check(len(sup) == 1 and root is not None and '__copy__(' in root and len(pk) == 1, 'C14.4', 'PGPSignature.__copy__',
+                  'headers via base copy %d, packet copied %d' % (len(sup), len(pk)),
+                  'a copied signature carries its armor headers and a copy of its packet', where=sf.where)
     SP = prog.cls('pgpy.packet.fields', 'SubPackets')
     cp = SP.methods['__copy__']
+    me = cp.params[0]
     for s in Interp(prog, Scenario(inline=noinline)).run(cp):
         st = [(p, v) for p, v, l, _ in s.stores]
         obj = render(s.ret)
         d = dict(st)
-        rep.check(d.get('%s._hashed_sp' % obj) == 'self._hashed_sp.copy()' and d.get('%s._unhashed_sp' % obj) == 'self._unhashed_sp.copy()', 'C14.4',
+        okm = all(d.get('%s.%s' % (obj, a)) in ('%s.%s.copy()' % (me, a), 'copy.copy(%s.%s)' % (me, a)) for a in ('_hashed_sp', '_unhashed_sp'))
+        rep.check(okm, 'C14.4',
                   'SubPackets.__copy__', 'maps %s' % {k: v for k, v in d.items() if '_sp' in k}, 'a copied subpacket set carries both subpacket maps', where=cp.where)
         raw_idx = next((i for i, e in enumerate(s.events) if e[0] == 'store' and e[1].endswith('._hashed_raw')), None)
         late = [e for i, e in enumerate(s.events) if raw_idx is not None and i > raw_idx and e[0] == 'store' and "['h_'" in e[1].replace('(', '').replace('"', "'")]
@@ -487,7 +536,8 @@ def copies(rep, prog):
     for cname, kn in known.items():
         c = prog.cls('pgpy.pgp' if cname != 'SubPackets' else 'pgpy.packet.fields', cname)
         ini = c.methods['__init__']
-        attrs = set(n.attr for n in ast.walk(ini.node) if isinstance(n, ast.Attribute) and isinstance(n.ctx, ast.Store) and isinstance(n.value, ast.Name) and n.value.id == 'self')
+        attrs = set(n.attr for n in ast.walk(ini.node) if isinstance(n, ast.Attribute) and isinstance(n.ctx, ast.Store) and isinstance(n.value, ast.Name) and
+                    n.value.id == ini.params[0])
         new = attrs - kn
         if new:
             rep.error('C14.4', '%s.__init__ has unclassified attributes %s: cannot tell whether a copy must carry them' % (cname, sorted(new)))
@@ -495,66 +545,66 @@ def copies(rep, prog):
             rep.ok('C14.4', '%s.__init__' % cname, 'attributes %s all classified' % sorted(attrs))
 
 
-def _arms(fn):
-    """{class name tested by isinstance(other, X): (test, body)} of the if/elif chain at the top of __or__."""
-    out = {}
-    node = next((n for n in fn.node.body if isinstance(n, ast.If)), None)
-    chain = []
-    while isinstance(node, ast.If):
-        chain.append(node)
-        node = node.orelse[0] if len(node.orelse) == 1 and isinstance(node.orelse[0], ast.If) else None
-    # also a sequence of independent `if isinstance(...)` statements
-    for n in fn.node.body:
-        if isinstance(n, ast.If) and n not in chain:
-            chain.append(n)
-    for n in chain:
-        for c in ast.walk(n.test):
-            if isinstance(c, ast.Call) and dotted(c.func) == 'isinstance' and len(c.args) == 2:
-                names = [dotted(e) for e in (c.args[1].elts if isinstance(c.args[1], ast.Tuple) else [c.args[1]])]
-                for nm in names:
-                    out.setdefault(nm, (n.test, n.body))
-    return out
-
-
-def _has_call(body, func_text, arg_pred=None):
-    for st in body:
-        for c in ast.walk(st):
-            if isinstance(c, ast.Call) and ast.unparse(c.func) == func_text and (arg_pred is None or arg_pred(c)):
-                return True
-    return False
+def _typed(fn, clsname):
+    """Scenario arguments: the operand of __or__ is an instance of clsname."""
+    o = fn.params[1]
+    return o, {o: Sym(o, types={clsname}, nonnull=True)}
 
 
 def attach(rep, prog):
     K = prog.cls('pgpy.pgp', 'PGPKey')
     f = K.methods['__or__']
-    o = f.params[1]
-    arms = _arms(f)
-    sig = arms.get('PGPSignature')
-    ok = sig is not None and _has_call(sig[1], 'self._signatures.insort', lambda c: ast.unparse(c.args[0]) == o)
-    rep.check(ok, 'C14.5', 'PGPKey.__or__', 'signature arm inserts into self._signatures',
+    me = f.params[0]
+    # ---- a signature
+    o, args = _typed(f, 'PGPSignature')
+    outs, recs = observe(prog, f, args=args)
+    live = [s for s in outs if s.raised is None]
+    ins = bool(live) and all(sum(1 for c in s.calls if c[0] == '%s._signatures.insort' % me and c[1] == [o]) == 1 for s in live)
+    rep.check(ins, 'C14.5', 'PGPKey.__or__', 'signature arm inserts into self._signatures',
               'a signature is inserted into the key\'s sorted collection (never replacing another)', where=f.where)
-    emb = False
-    if sig is not None:
-        for n in [x for st in sig[1] for x in ast.walk(st) if isinstance(x, ast.If)]:
-            if ast.unparse(n.test).replace(' ', '') in ('%s.type==SignatureType.Subkey_Binding' % o, 'SignatureType.Subkey_Binding==%s.type' % o):
-                src = ' '.join(ast.unparse(x) for x in n.body)
-                parent = [x for st in n.body for x in ast.walk(st) if isinstance(x, ast.Assign) and isinstance(x.targets[0], ast.Attribute) and
-                          x.targets[0].attr == '_parent' and ast.unparse(x.value) == o]
-                emb = "%s._signature.subpackets['EmbeddedSignature']" % o in src and bool(parent) and \
-                    _has_call(n.body, 'self._signatures.insort', lambda c: ast.unparse(c.args[0]) == ast.unparse(parent[0].targets[0].value))
-    rep.check(emb, 'C14.5', 'PGPKey.__or__', 'embedded signatures extracted',
+    rep.check(bool(live) and all(render(s.ret) == me for s in live), 'C14.5', 'PGPKey.__or__', 'returns %s' % sorted({render(s.ret) for s in live}),
+              'attaching returns the key itself (`key |= x` keeps the key)', where=f.where)
+    binding = '%s.type == SignatureType.Subkey_Binding' % o
+    emb_coll = "%s._signature.subpackets['EmbeddedSignature']" % o
+    loops = [r for r in recs if r.coll in (emb_coll, "%s._signature.subpackets['h_EmbeddedSignature']" % o)]
+    emb = bool(loops)
+    detail = []
+    for r in loops:
+        when = atom_value(r.before.facts, binding)
+        E = '(PGPSignature() | %s)' % r.var
+        good = when is True and not r.conds
+        for status, facts, events, st in r.paths:
+            linked = [e for e in events if e[0] == 'store' and e[1] == '%s._parent' % E and e[2] == o]
+            inserted = [e for e in events if e[0] == 'call' and e[1] == '%s._signatures.insort' % me and e[2] == [E]]
+            good = good and len(linked) == 1 and len(inserted) == 1 and status in ('normal', 'continue')
+            detail.append((when, [e[1:3] for e in events if e[0] == 'store'], [e[1:3] for e in events if e[0] == 'call' and e[1].endswith('.insort')]))
+        emb = emb and good
+    # every path of a subkey binding signature reaches the extraction
+    for s in live:
+        if atom_value(s.facts, binding) is True:
+            emb = emb and any(c[0] == '%s._signatures.insort' % me and c[1] and c[1][0].startswith('(PGPSignature() | ') for c in s.calls)
+    rep.check(emb, 'C14.5', 'PGPKey.__or__', 'embedded signatures extracted %s' % detail,
               'the cross-signature embedded in a subkey binding is made visible, linked to its binding signature', where=f.where)
-    ka = arms.get('PGPKey')
-    ok = ka is not None and any(ast.unparse(x).replace(' ', '') == '%s._parent=self' % o for st in ka[1] for x in ast.walk(st) if isinstance(x, ast.Assign)) and \
-        any(ast.unparse(x).replace(' ', '') == 'self._children[%s.fingerprint.keyid]=%s' % (o, o) for st in ka[1] for x in ast.walk(st) if isinstance(x, ast.Assign))
+    # ---- a subkey
+    o, args = _typed(f, 'PGPKey')
+    live = [s for s in Interp(prog, Scenario(inline=noinline, args=args)).run(f) if s.raised is None]
+    ok = bool(live)
+    for s in live:
+        st = {p: v for p, v, l, _ in s.stores}
+        ok = ok and st.get('%s._parent' % o) == me and st.get('%s._children[%s.fingerprint.keyid]' % (me, o)) == o and \
+            atom_value(s.facts, '%s.is_primary' % o) is False
     rep.check(ok, 'C14.5', 'PGPKey.__or__', 'subkey attached under its own key id, parent set', 'a subkey is attached to this key under its own key id', where=f.where)
-    ua = arms.get('PGPUID')
-    ok = ua is not None and any(ast.unparse(x).replace(' ', '') in ('%s._parent=weakref.ref(self)' % o, '%s._parent=self' % o) for st in ua[1] for x in ast.walk(st)
-                                if isinstance(x, ast.Assign)) and _has_call(ua[1], 'self._uids.insort', lambda c: ast.unparse(c.args[0]) == o)
+    # ---- an identity
+    o, args = _typed(f, 'PGPUID')
+    live = [s for s in Interp(prog, Scenario(inline=noinline, args=args)).run(f) if s.raised is None]
+    ok = bool(live)
+    for s in live:
+        st = {p: v for p, v, l, _ in s.stores}
+        ok = ok and st.get('%s._parent' % o) in ('weakref.ref(%s)' % me, me) and sum(1 for c in s.calls if c[0] == '%s._uids.insort' % me and c[1] == [o]) == 1
     rep.check(ok, 'C14.5', 'PGPKey.__or__', 'identity linked and inserted', 'an identity is linked to and inserted into this key', where=f.where)
     U = prog.cls('pgpy.pgp', 'PGPUID')
     uf = U.methods['__or__']
-    uo = uf.params[1]
-    sa = _arms(uf).get('PGPSignature')
-    rep.check(sa is not None and _has_call(sa[1], 'self._signatures.insort', lambda c: ast.unparse(c.args[0]) == uo), 'C14.5', 'PGPUID.__or__',
-              'signature inserted', 'a certification is inserted into the identity\'s collection', where=uf.where)
+    o, args = _typed(uf, 'PGPSignature')
+    live = [s for s in Interp(prog, Scenario(inline=noinline, args=args)).run(uf) if s.raised is None]
+    ok = bool(live) and all(sum(1 for c in s.calls if c[0] == '%s._signatures.insort' % uf.params[0] and c[1] == [o]) == 1 and render(s.ret) == uf.params[0] for s in live)
+    rep.check(ok, 'C14.5', 'PGPUID.__or__', 'signature inserted', 'a certification is inserted into the identity\'s collection', where=uf.where)
